@@ -129,9 +129,11 @@ class CalculationService(BaseSubscriber):
             if not isinstance(projector.effect, WarfareBuffEffect):
                 continue
             projector_fit = projector.item._fit
-            # Affect this fit by buffs existing in fleet
+            # Affect this fit by buffs existing in fleet. Its own buffs affect
+            # it regardless of fleet membership
             if (
                 msg.fit.ship is not None and
+                projector_fit is not msg.fit and
                 projector_fit.fleet is msg.fit.fleet
             ):
                 fits_effect_applications.setdefault(
@@ -160,9 +162,11 @@ class CalculationService(BaseSubscriber):
             if not isinstance(projector.effect, WarfareBuffEffect):
                 continue
             projector_fit = projector.item._fit
-            # Unaffect this fit by buffs existing in fleet
+            # Unaffect this fit by buffs existing in fleet. Its own buffs keep
+            # affecting it regardless of fleet membership
             if (
                 msg.fit.ship is not None and
+                projector_fit is not msg.fit and
                 projector_fit.fleet is msg.fit.fleet
             ):
                 fits_effect_unapplications.setdefault(
